@@ -21,7 +21,7 @@ from .. import alpha, core, ref
 from ..gutil import maxabs
 
 LEVEL = "exploration"
-RULE = ("attitudes: 4 axes x {0,0.1,1,pi/2,2.5} both signs; v_b, w in {0,(1,-2,3),generic}; rotor speeds {0, hover, (600,700,800,900)}; commands {speed-100, speed, speed+100}; "
+RULE = ("attitudes: 4 axes x {0,0.1,1,pi/2,2.5} both signs; v_b, w in {0,(1,-2,3),generic}; rotor speeds {0, hover, (600,700,800,900)}; commands {speed-100, speed, speed+100, differential (+100,-100,+50,-20)}; "
         "z in {2, 0.01}; parameter sets: default, asymmetric geometry, 16 spin patterns, scaled mass/inertia, aero on. non-trivial = non-zero rotor speed or rate; distinct by raw bytes")
 ASSUMPTIONS = ["reference rigid-body equations in numpy double", "states on or below the ground plane (z <= 0) are outside the quantifier"]
 
@@ -116,7 +116,7 @@ def explore(case):
     if tier != "thorough" and pname.startswith("spin_"):
         quats, vbs, ws = quats[::4], vbs[:2], ws[:2]
     for q, vb, w, om, z in itertools.product(quats, vbs, ws, oms, zs):
-        for du in (-100.0, 0.0, 100.0):
+        for du in (-100.0, 0.0, 100.0, np.array([100.0, -100.0, 50.0, -20.0])):
             u = om + du
             x = np.concatenate([[0.4, -1.2, z], vb, q, w, om])
             res.count("evaluations")
@@ -160,7 +160,7 @@ def explore(case):
             if pname == "default" and not aero and len(set(om.tolist())) == 1 and maxabs(w) == 0 and maxabs(xd[10:13]) > 1e-9:
                 res.fail(site="quadrotor.f", clause="zero_moment_for_equal_speeds_on_symmetric_frame", cls=cls, detail=dict(info, omega_dot=xd[10:13]), sub="model", case=case)
             # (6) equivariance under yaw rotation + horizontal translation of the world
-            if du == 0.0:
+            if np.isscalar(du) and du == 0.0:
                 for psi, delta in ((0.7, np.array([3.0, -5.0, 0.0])), (math.pi / 2, np.zeros(3)), (math.pi, np.array([-100.0, 40.0, 0.0]))):
                     Rz = ref.Rz(psi)
                     qz = np.array([math.cos(psi / 2), 0, 0, math.sin(psi / 2)])
